@@ -25,15 +25,17 @@ const (
 
 	// This is the maximum number of compression pointers that should occur in a
 	// semantically valid message. Each label in a domain name must be at least one
-	// octet and is separated by a period. The root label won't be represented by a
-	// compression pointer to a compression pointer, hence the -2 to exclude the
-	// smallest valid root label.
+	// octet and is separated by a period, so a name has at most 127 labels. Every
+	// label may be followed by a pointer to the rest of the name, and the name as a
+	// whole may itself be a pointer to an earlier occurrence, which is what our own
+	// packer emits for a 127 label name whose every suffix occurred before; hence
+	// the -1 to exclude the root label only.
 	//
 	// It is possible to construct a valid message that has more compression pointers
 	// than this, and still doesn't loop, by pointing to a previous pointer. This is
 	// not something a well written implementation should ever do, so we leave them
 	// to trip the maximum compression pointer check.
-	maxCompressionPointers = (maxDomainNameWireOctets+1)/2 - 2
+	maxCompressionPointers = (maxDomainNameWireOctets+1)/2 - 1
 
 	// This is the maximum length of a domain name in presentation format. The
 	// maximum wire length of a domain name is 255 octets (see above), with the
